@@ -337,6 +337,10 @@ func (s *MemoryEventStore) After(_ context.Context, sessionID, streamID string, 
 		if !ok {
 			return nil, fmt.Errorf("MemoryEventStore.After: unknown stream ID %v in session %q", streamID, sessionID)
 		}
+		// index is the caller's: keep index+1 from overflowing.
+		if index >= dl.first+len(dl.data) {
+			return nil, nil // nothing was appended after index
+		}
 		start := (index + 1) - dl.first
 		if start < 0 {
 			return nil, fmt.Errorf("MemoryEventStore.After: index %d, stream ID %v, session %q: %w",
